@@ -14,7 +14,8 @@ def work(a):
         mod.run_group(g, acc)
     except runner.OutOfTime:
         pass
-    return [(v['msg'], v['case']) for v in acc.violations], acc.evaluations
+    known = {f['key'] for f in runner.load_findings() if f.get('status') == 'known'}
+    return [(v['msg'], v['case']) for v in acc.violations if v.get('key') not in known], acc.evaluations
 
 if __name__ == '__main__':
     pid = sys.argv[1]
